@@ -189,6 +189,8 @@ def c20(ctx):
 def c16(ctx):
     thorough = ctx.tier == "thorough"
     V.mc(ctx, "MC_C16", cfg="MC_C16_thorough.cfg" if thorough else "MC_C16.cfg")
+    # the lemma that lets the trace validation judge gaps of millions of bytes (checked as an ASSUME on all small instances)
+    V.mc(ctx, "MC_C16gap", cfg="MC_C16gap_thorough.cfg" if thorough else "MC_C16gap.cfg", workers=1)
     summ = V.gen_traces(ctx, shards=12)
     V.validate(ctx, "Trace_C16", summ, V.default_sig, par=12)
     # byte streams kept by Go's coverage-guided fuzzer while it drives the real Sync: judged like the others
@@ -198,6 +200,7 @@ def c16(ctx):
         V.validate(ctx, "Trace_C16", summf, V.default_sig, par=8)
     return V.finish(ctx, "model_checking",
                     rule="MC: the read/unread/peek loop as a TLA+ state machine refines the declarative First(s) on every stream of length <= 6 (8 thorough) over {0x47,0x00,0x10,0x05,0x1F}. "
+                         "Sync!GapLemma (a stream with a gap of n >= 3 non-sync bytes is decided by the same stream with a gap of three) holds on all prefixes <= 2 (3) and suffixes <= 4 (5) bytes over the alphabet; "
                          "B3: the real packet.Sync on every stream of length <= 6 (8) over the same alphabet (bufio 16-byte buffer and a minimal PeekScanner alternately) plus random long streams "
                          "dense in false sync bytes / reserved PIDs / headers cut by EOF through four reader kinds; TLC checks offset = First(s), bytes left in the reader = suffix from First(s), "
                          "not-found error iff no plausible header. The corpus Go's coverage-guided fuzzer accumulates while driving the real Sync (thorough tier, 90 s) is judged the same way. "
